@@ -81,7 +81,10 @@ pub trait GradientTarget<T: Float, B: AutodiffBackend> {
     fn unnorm_logp_and_grad(&self, position: Tensor<B, 1>) -> (Tensor<B, 1>, Tensor<B, 1>) {
         let pos = position.clone().detach().require_grad();
         let ulogp = self.unnorm_logp(pos.clone());
-        let grad_inner = pos.grad(&ulogp.backward()).unwrap();
+        // no entry for `pos` in the graph: the log-density is locally constant, its gradient zero
+        let grad_inner = pos
+            .grad(&ulogp.backward())
+            .unwrap_or_else(|| pos.clone().inner().zeros_like());
         let grad = Tensor::<B, 1>::from_inner(grad_inner);
         (ulogp, grad)
     }
